@@ -14,6 +14,7 @@ import (
 	"runtime"
 	"strings"
 	"sync"
+	"sync/atomic"
 	"time"
 
 	"github.com/Jigsaw-Code/outline-sdk/transport"
@@ -421,4 +422,50 @@ func PortOwnedBySelf(udp bool, addr string) bool {
 		}
 	}
 	return false
+}
+
+// ---------------------------------------------------------------------------
+// Ports outside the ephemeral range (32768-60999): the server's own NAT sockets and every
+// client socket of the harness get ephemeral ports, so listener addresses handed to the
+// server, and client sockets whose address must stay unique within a case, come from here.
+
+var portCursor atomic.Int64
+
+func init() { portCursor.Store(int64(os.Getpid()*7919) % 22000) }
+
+// NextPort returns the next candidate port in [10000, 32000).
+func NextPort() int { return 10000 + int(portCursor.Add(1)%22000) }
+
+// FreePort returns a port below the ephemeral range that is currently free for TCP and UDP on the wildcard address.
+func FreePort() (int, error) {
+	for i := 0; i < 2000; i++ {
+		p := NextPort()
+		l, err := net.Listen("tcp", fmt.Sprintf(":%d", p))
+		if err != nil {
+			continue
+		}
+		u, err := net.ListenPacket("udp", fmt.Sprintf(":%d", p))
+		l.Close()
+		if err != nil {
+			continue
+		}
+		u.Close()
+		return p, nil
+	}
+	return 0, errors.New("no free port below the ephemeral range")
+}
+
+// DialUDPFixed connects a UDP socket to raddr from a local port that the harness never reuses.
+func DialUDPFixed(raddr string) (*net.UDPConn, error) {
+	ra, err := net.ResolveUDPAddr("udp", raddr)
+	if err != nil {
+		return nil, err
+	}
+	for i := 0; i < 2000; i++ {
+		la := &net.UDPAddr{Port: NextPort()}
+		if c, err := net.DialUDP("udp", la, ra); err == nil {
+			return c, nil
+		}
+	}
+	return nil, errors.New("no free local udp port")
 }
